@@ -625,6 +625,12 @@ func (c *core) commit(block *hg.Block) error {
 				return err
 			}
 			c.selfBlockSignatures.Add(sig)
+		} else {
+			// signBlock saves the block; when we do not sign it, save the
+			// StateHash and receipts all the same.
+			if err := c.hg.Store.SetBlock(block); err != nil {
+				return err
+			}
 		}
 
 		err = c.hg.SetAnchorBlock(block)
